@@ -157,8 +157,13 @@ def table_monitor(env):
         env.count("table_monitor_unavailable")
         return
     from vf.spec import STR_TO_BOOL as DOC
+    try:
+        table = dict(table)
+    except Exception:
+        env.count("table_monitor_unavailable")
+        return
     env.count("table_monitor_evaluations")
-    if dict(table) != DOC:
+    if table != DOC:
         diff = sorted(set(table.items()) ^ set(DOC.items()))
         env.violation({"kind": "bool-word-table-differs-from-documentation"}, {"difference": diff[:10]})
     none_vals = getattr(coercion, "STR_NONE_VALUES", None)
